@@ -135,6 +135,19 @@ pub fn run_backend(backend: u8, run: &RunCfg, case: u64, stop_after: Option<usiz
                 match g { Ok(g) => { let a = g.attributes().get("sampler_settings").cloned().unwrap_or(serde_json::Value::Null); if a != d.settings_json { return Some(("zarr.metadata_settings".into(), "root attribute sampler_settings differs from the settings the run used".into())); } }
                     Err(e) => return Some(("zarr.metadata_settings".into(), format!("cannot open root group: {e}"))) }
             }
+            // ... also when the store already holds a trace: a second run (other seed, other number of draws) into the same store leaves ITS
+            // settings in the metadata, not those of the first run
+            if case % 2 == 0 {
+                let mut run2 = run.clone(); run2.seed ^= 0x5a5a_5a5a; run2.num_draws += 1;
+                let d2 = drive(&run2, ZarrConfig::new(store.clone()).with_chunk_size(chunk).store_warmup(sw), &mut NoProbe, None);
+                if d2.error.is_none() {
+                    match zarrs::group::Group::open(store.clone(), "/") {
+                        Ok(g) => { let a = g.attributes().get("sampler_settings").cloned().unwrap_or(serde_json::Value::Null);
+                            if a != d2.settings_json { return Some(("zarr.metadata_settings_second_run".into(), format!("after a second run into the same store the root attribute sampler_settings is not that of the second run (seed in the store: {}, seed used: {})", a["seed"], d2.settings_json["seed"]))); } }
+                        Err(e) => return Some(("zarr.metadata_settings".into(), format!("cannot open root group: {e}"))),
+                    }
+                }
+            }
             if !sw {
                 // store_warmup = false must omit the warmup draws
                 let nwarm = d.recs.iter().filter(|r| r.tuning).count();
